@@ -116,6 +116,30 @@ func c09(r *core.Run) {
 		ok := n == core.FuncName(deflt) || n == core.FuncName(sub) || n == core.FuncName(resetAll)
 		r.Check(ok, "S1", n, "reads-ownership-lists", "-", "one of defaulting / subscribe / ResetAll", "ownership lists are read by "+n)
 	}
+	// defaulting replaces only a nil list: an explicitly empty list means "own nothing of this kind"
+	for _, ac := range core.FieldAccesses(p.Helpers(deflt), isList) {
+		if ac.Kind != "store" {
+			continue
+		}
+		nilOnly := false
+		for _, ed := range ctxEdges(p, ac.Instr, deflt, 0) {
+			ci := core.Cond(ed.If.Cond)
+			if ci.Kind == "nilcmp" && ci.HasFld && ci.Field == ac.F {
+				truth := ed.Succ == 0
+				if ci.Negate {
+					truth = !truth
+				}
+				if (ci.Op == token.EQL) == truth {
+					nilOnly = true
+				}
+			}
+		}
+		lab := "resources"
+		if ac.F == accF {
+			lab = "access"
+		}
+		r.Check(nilOnly, "S1", core.FuncName(ac.Fn), "default-only-when-nil("+lab+")", p.InstrPos(ac.Instr), "the default replaces only an unset (nil) list", "the default ownership also replaces a list that was explicitly set to empty (the store is not on the list==nil edge): a service configured to own no "+lab+" patterns subscribes to and announces the default patterns anyway")
+	}
 	for _, fn := range []*ssa.Function{sub, resetAll} {
 		var dc ssa.CallInstruction
 		for _, c := range core.Calls(fn) {
